@@ -7,6 +7,7 @@ package main
 
 import (
 	"bufio"
+	"go/types"
 	"encoding/json"
 	"flag"
 	"fmt"
@@ -105,6 +106,8 @@ func main() {
 		runMain(os.Args[2:])
 	case "list":
 		listMain(os.Args[2:])
+	case "scan":
+		scanMain(os.Args[2:])
 	default:
 		fatal("unknown command %s", os.Args[1])
 	}
@@ -279,4 +282,79 @@ type LabelSum struct {
 	Sat     int `json:"sat"`
 	Trivial int `json:"trivial"`
 	Unknown int `json:"unknown"`
+}
+
+// scanMain lists every potential source of run-to-run variation in the library
+// (package ecs without harness files): map ranges, goroutines, select, clock and
+// random sources, pointer-to-integer conversions.
+func scanMain(args []string) {
+	var c Config
+	fs := flag.NewFlagSet("scan", flag.ExitOnError)
+	addCommon(fs, &c)
+	fs.Parse(args)
+	ld := load(&c)
+	type site struct {
+		Func string `json:"func"`
+		Kind string `json:"kind"`
+		Pos  string `json:"pos"`
+	}
+	var sites []site
+	seen := map[*ssa.Function]bool{}
+	var visit func(fn *ssa.Function)
+	visit = func(fn *ssa.Function) {
+		if fn == nil || seen[fn] || fn.Blocks == nil {
+			return
+		}
+		seen[fn] = true
+		pos := ld.prog.Fset.Position(fn.Pos())
+		if strings.Contains(pos.Filename, "zz_verif_") {
+			return
+		}
+		for _, b := range fn.Blocks {
+			for _, ins := range b.Instrs {
+				p := ld.prog.Fset.Position(ins.Pos()).String()
+				switch x := ins.(type) {
+				case *ssa.Range:
+					if _, ok := x.X.Type().Underlying().(*types.Map); ok {
+						sites = append(sites, site{fn.String(), "map-range", p})
+					}
+				case *ssa.Go:
+					sites = append(sites, site{fn.String(), "go", p})
+				case *ssa.Select:
+					sites = append(sites, site{fn.String(), "select", p})
+				case *ssa.Convert:
+					if isUnsafePointer(x.X.Type()) && widthOf(x.Type()) > 0 {
+						sites = append(sites, site{fn.String(), "pointer-to-integer", p})
+					}
+				case *ssa.Call:
+					if cal := x.Common().StaticCallee(); cal != nil && cal.Pkg != nil {
+						switch cal.Pkg.Pkg.Path() {
+						case "time", "math/rand", "math/rand/v2", "crypto/rand", "os", "runtime":
+							sites = append(sites, site{fn.String(), "call " + cal.String(), p})
+						}
+					}
+				}
+			}
+		}
+		for _, an := range fn.AnonFuncs {
+			visit(an)
+		}
+	}
+	for _, m := range ld.pkg.Members {
+		switch x := m.(type) {
+		case *ssa.Function:
+			visit(x)
+		case *ssa.Type:
+			for _, t := range []types.Type{x.Type(), types.NewPointer(x.Type())} {
+				ms := ld.prog.MethodSets.MethodSet(t)
+				for i := 0; i < ms.Len(); i++ {
+					visit(ld.prog.MethodValue(ms.At(i)))
+				}
+			}
+		}
+	}
+	sort.Slice(sites, func(i, j int) bool { return sites[i].Pos < sites[j].Pos })
+	b, _ := json.MarshalIndent(sites, "", " ")
+	os.Stdout.Write(b)
+	fmt.Println()
 }
